@@ -71,7 +71,7 @@ def normaliser_table(tier, seed):
 
 
 FEATS = ["std", "cache-type-score", "fix-weight-length", "tag-prediction", "charwise-pma"]
-DRIVER = os.path.join(ROOT, "lean", ".lake", "build", "bin", "vdriver")
+DRIVER = os.environ.get("VERIF_DRIVER") or os.path.join(ROOT, "lean", ".lake", "build", "bin", "vdriver")
 
 
 def _feat_builds(tier):
